@@ -38,6 +38,8 @@ func genC19(seed uint64, tier string) *Plan {
 	p.SK["sign"] = []string{"strict", "strict", "strictnosign", "laxsign", "laxnosign"}[r.intn(5)]
 	p.Knobs["seen_ttl_ms"] = 600000
 	p.Knobs["rsize"] = float64(r.rng(1, 4))
+	p.Knobs["idfn"] = float64(b2i(r.chance(0.3)))                  // message ID = hash of the payload
+	p.Knobs["idw_threshold"] = float64([]int{1, 32, 1024}[r.intn(3)]) // IDONTWANT (an urgent push) for small messages too
 	genDegrees(r, p, 4)
 	nt := p.ki("ntopics", 1)
 	add := func(op string, a ...int64) { p.Items = append(p.Items, Item{Op: op, A: a}) }
@@ -77,8 +79,15 @@ func genC19(seed uint64, tier string) *Plan {
 			add("pubdup", i, t, int64(r.rng(8, 100)))
 		case x < 66:
 			add("resend", i, int64(r.intn(5)))
-		case x < 74:
+		case x < 68:
 			add("node-pub", t, int64(r.rng(8, 100)))
+		case x < 70:
+			add("node-pub-same", int64(r.intn(6)), int64(r.intn(2))) // a payload the node has published or received before
+		case x < 71:
+			add("node-pub-key", t, int64(r.rng(8, 100))) // per-publish identity (refused by the no-sign policies)
+		case x < 74:
+			// a batch; bit k of the mask makes message k a local-only publication
+			add("node-batch", t, int64(r.rng(1, 4)), int64(r.intn(16)), int64(r.rng(8, 100)))
 		case x < 78:
 			add("disconnect", i)
 		case x < 83:
@@ -146,11 +155,35 @@ func runC19(s *sim) {
 		}
 		return teeTracer{ts}
 	}
+	if p.kb("idfn") {
+		extra = append(extra, WithMessageIdFn(func(m *pb.Message) string { return "c:" + m.GetTopic() + "|" + contentID(m) }))
+	}
 	if err := w.startNode(extra...); err != nil {
 		s.violate("SIM", "setup", "SIM/setup", "node creation failed: %v", err)
 		return
 	}
 	router := w.n.router
+	idOf := func(m *pb.Message) string { return w.n.ps.idGen.RawID(m) }
+	// every RPC the gossipsub router hands to a peer's queue (verifObserveSendRPC: after
+	// piggy-backing, before the push) -- the independent count SEND_RPC + DROP_RPC is compared with
+	attempts := map[peer.ID]int{}
+	unjudged := map[peer.ID]bool{}
+	defer func() { verifObserveSendRPCFn = nil }()
+	verifObserveSendRPCFn = func(pid peer.ID, out *RPC) {
+		// (event loop goroutine)
+		if _, ok := w.n.ps.peers[pid]; !ok {
+			return // no queue: nothing accepts or refuses
+		}
+		s.mu.Lock()
+		defer s.mu.Unlock()
+		if out.Size() >= w.n.ps.maxMessageSize {
+			unjudged[pid] = true // split into fragments: not counted
+			return
+		}
+		attempts[pid]++
+	}
+	routerSend := map[peer.ID]int{}
+	routerDrop := map[peer.ID]int{}
 	// incremental replay state
 	cur := 0
 	joined := map[string]bool{}
@@ -161,7 +194,73 @@ func runC19(s *sim) {
 	sendN := map[peer.ID]int{}
 	dropN := map[peer.ID]int{}
 	localPubs := 0
-	w.localHook = func(topic string, data []byte, c *call) { localPubs++ }
+	var ownData [][2]string // topic, payload of the node's own publications
+	w.localHook = func(topic string, data []byte, c *call) {
+		localPubs++
+		ownData = append(ownData, [2]string{topic, string(data)})
+	}
+	w.extraOps["node-pub-same"] = func(it Item) {
+		var cand [][2]string
+		for _, id := range w.sentIDs() {
+			cand = append(cand, [2]string{w.sent[id].GetTopic(), string(w.sent[id].GetData())})
+		}
+		cand = append(cand, ownData...)
+		if len(cand) == 0 {
+			return
+		}
+		c := cand[int(it.a(0))%len(cand)]
+		localPubs++
+		s.probe("local_publish_of_known_payload")
+		s.do("Publish (known payload) "+c[0], func() any {
+			t, err := w.n.topic(c[0])
+			if err != nil {
+				return err
+			}
+			if it.a(1) == 1 {
+				return t.Publish(s.bgctx(), []byte(c[1]), WithLocalPublication(true))
+			}
+			return t.Publish(s.bgctx(), []byte(c[1]))
+		})
+	}
+	ghostKey := genKey(newPrng(p.Seed, "ghost"), 0)
+	ghostID, _ := peer.IDFromPrivateKey(ghostKey)
+	w.extraOps["node-pub-key"] = func(it Item) {
+		topic := w.topicName(it.a(0))
+		data := w.mkData(int(it.a(1)))
+		localPubs++
+		s.probe("local_publish_with_per_publish_identity")
+		s.do("Publish(WithSecretKeyAndPeerId) "+topic, func() any {
+			t, err := w.n.topic(topic)
+			if err != nil {
+				return err
+			}
+			return t.Publish(s.bgctx(), data, WithSecretKeyAndPeerId(ghostKey, ghostID))
+		})
+	}
+	w.extraOps["node-batch"] = func(it Item) {
+		topic := w.topicName(it.a(0))
+		var b MessageBatch
+		for k := 0; k < int(it.a(1)); k++ {
+			data := w.mkData(int(it.a(3)) + k)
+			local := it.a(2)>>uint(k)&1 == 1
+			localPubs++
+			ownData = append(ownData, [2]string{topic, string(data)})
+			if local {
+				s.probe("batch_with_local_only_message")
+			}
+			s.do("AddToBatch "+topic, func() any {
+				t, err := w.n.topic(topic)
+				if err != nil {
+					return err
+				}
+				if local {
+					return t.AddToBatch(s.bgctx(), &b, data, WithLocalPublication(true))
+				}
+				return t.AddToBatch(s.bgctx(), &b, data)
+			})
+		}
+		s.do("PublishBatch", func() any { return w.n.ps.PublishBatch(&b) })
+	}
 
 	replay := func() {
 		w.n.mu.Lock()
@@ -216,8 +315,14 @@ func runC19(s *sim) {
 				publishN++
 			case pb.TraceEvent_SEND_RPC:
 				sendN[peer.ID(e.GetSendRPC().GetSendTo())]++
+				if len(e.GetSendRPC().GetMeta().GetSubscription()) == 0 {
+					routerSend[peer.ID(e.GetSendRPC().GetSendTo())]++ // (announcements do not come from the router)
+				}
 			case pb.TraceEvent_DROP_RPC:
 				dropN[peer.ID(e.GetDropRPC().GetSendTo())]++
+				if len(e.GetDropRPC().GetMeta().GetSubscription()) == 0 {
+					routerDrop[peer.ID(e.GetDropRPC().GetSendTo())]++
+				}
 				s.probe("drop_traced")
 			}
 		}
@@ -303,7 +408,7 @@ func runC19(s *sim) {
 		for _, fp := range w.allFakes() {
 			for _, o := range fp.recv {
 				for _, m := range o.rpc.GetPublish() {
-					id := midOf(m)
+					id := idOf(m)
 					if deliver[id] != 1 {
 						s.violate("C19", "deliver-once", "C19/forwarded-without-trace", "message %x was sent to %s but has %d DELIVER_MESSAGE events", shortHash([]byte(id)), fp.name, deliver[id])
 					}
@@ -316,6 +421,21 @@ func runC19(s *sim) {
 		// publications
 		if publishN != localPubs {
 			s.violate("C19", "publish", "C19/publish-count", "%d local publication attempts, %d PUBLISH_MESSAGE events", localPubs, publishN)
+		}
+		// gossipsub: every RPC handed to a peer's queue was traced as sent or as dropped
+		if w.n.gs() != nil {
+			s.mu.Lock()
+			for _, fp := range w.allFakes() {
+				if unjudged[fp.id] {
+					continue
+				}
+				if attempts[fp.id] != routerSend[fp.id]+routerDrop[fp.id] {
+					s.violate("C19", "send-rpc", "C19/gossipsub/queue-push-untraced", "the router handed %d RPCs to the outbound queue of %s; the trace has %d SEND_RPC and %d DROP_RPC events for it (announcements excluded)", attempts[fp.id], fp.name, routerSend[fp.id], routerDrop[fp.id])
+				} else if routerDrop[fp.id] > 0 {
+					s.probe("queue_push_outcomes_checked_with_drops")
+				}
+			}
+			s.mu.Unlock()
 		}
 		// SEND_RPC vs frames on healthy streams: peers that had exactly one outbound stream from the
 		// node, never stalled, alive at the end
